@@ -301,12 +301,12 @@ Fixpoint shrink_idle (t : nat) (fuel : nat) (s : state) : state :=
 (* Pool::resize_locked *)
 Definition resize_locked (s : state) (t : nat) (n : Z) : state :=
   let old := maxs s in
-  let s1 := set_maxs s n in
+  let s0 := set_maxs s n in
+  let s1 := shrink_idle t (length (vec s0)) s0 in
   if Z.ltb n old then
     let want := old - n in
     let free := if closed s1 then 0 else Z.min (permits s1) want in
-    let s2 := set_debt (set_permits s1 (permits s1 - free)) (debt s1 + (want - free)) in
-    shrink_idle t (length (vec s2)) s2
+    set_debt (set_permits s1 (permits s1 - free)) (debt s1 + (want - free))
   else if Z.ltb old n then
     let add := n - old in
     let cancelled := Z.min add (debt s1) in
@@ -385,10 +385,10 @@ Definition acquire (c : cfg) (s : state) (t : nat) (g : getk) : state :=
       else setpc (set_queue s (queue s ++ [t])) t (GWait g false)
   end.
 
+(* Pool::status: available = idle objects; waiting = users - (size - idle), saturating *)
 Definition status_event (s : state) : event :=
-  if Z.ltb (users s) (size s)
-  then EStatus (maxs s) (size s) (size s - users s) 0
-  else EStatus (maxs s) (size s) 0 (users s - size s).
+  let av := Z.of_nat (length (vec s)) in
+  EStatus (maxs s) (size s) av (Z.max 0 (users s - Z.max 0 (size s - av))).
 
 Definition step_task (c : cfg) (s : state) (t : nat) : option state :=
   match pcof s t with
